@@ -37,9 +37,11 @@ func (s scope) lookup(k string) data.Value {
 	for i := range s {
 		var elem = s[len(s)-i-1].vars
 		if val, ok := elem[k]; ok {
+			verifLookup(k, true)
 			return val
 		}
 	}
+	verifLookup(k, false)
 	return data.Undefined{}
 }
 
